@@ -452,6 +452,23 @@ func (l *Link) Wire(d Dir) []byte {
 	return append([]byte(nil), l.h[d].wire...)
 }
 
+// WireLen returns the number of bytes written so far in direction d (tap).
+func (l *Link) WireLen(d Dir) int {
+	l.mu.Lock()
+	defer l.mu.Unlock()
+	return len(l.h[d].wire)
+}
+
+// WireFrom returns a copy of the tap of direction d from offset off on.
+func (l *Link) WireFrom(d Dir, off int) []byte {
+	l.mu.Lock()
+	defer l.mu.Unlock()
+	if off >= len(l.h[d].wire) {
+		return nil
+	}
+	return append([]byte(nil), l.h[d].wire[off:]...)
+}
+
 func (l *Link) Events(d Dir) []WriteEvent {
 	l.mu.Lock()
 	defer l.mu.Unlock()
